@@ -75,6 +75,9 @@ UNITS = [
     Unit("C05", "jsonargparse._loaders_dumpers:load_value", lv_setup, lv_post, lv_raises,
          trusted=["load_basic / the mode's loader return what the text denotes (C01 unit / external)", "value.strip() == '-' decides the dash case"]),
 ]
+from contracts.check_type import check_type_unit  # noqa: E402
+UNITS.append(check_type_unit("C05"))
+
 VERIFIED_CALLEES = ()
 LEVEL = "other"
 TECHNIQUE = "contract-based deductive verification of the shared loading funnel (VCs from the real AST) + bounded relational contract across 9 channels, 4 parser modes and dotted/nested spelling"
